@@ -7,7 +7,9 @@
      registered_at = {id(process): path for path, process in self.process_paths.items()}      (the last path wins)
      for path, process in process_updates:                      (what the store still holds, see held_reports)
          old = registered_at.get(id(process))
-         if old is not None and old != path and old in self.front and any(starts_with(old, d) for d in deletions):
+         if old is not None and old in self.front and any(starts_with(old, d) for d in deletions):
+                                          (repair d76c21b dropped the test `old != path`: a process moved away and back
+                                           by one update keeps its entry; the version with the test is take_moved_neq)
              moved[path] = self.front.pop(old)
      for d in deletions: for path in process_paths under d: self.front.pop(path, None)            (_delete_path)
      for path, process in process_updates (non-steps):                                    (_add_process_path)
@@ -38,6 +40,21 @@ Definition table_obj (procs : list (list key * N)) (p : list key) : option N :=
 
 (* 1. the entries of moved processes are taken out *)
 Definition take_moved (procs : list (list key * N)) (dels : list (list key))
+           (acc : fronts * fronts) (pp : list key * pinfo) : fronts * fronts :=
+  let '(fr, moved) := acc in
+  match obj_path procs (pi_obj (snd pp)) with
+  | Some old =>
+    if existsb (fun d => starts_with old d) dels then
+      match flookup fr old with
+      | Some e => (fpop fr old, fput moved (fst pp) e)
+      | None => acc
+      end
+    else acc
+  | None => acc
+  end.
+
+(* before repair d76c21b: only a process whose new path differs from its old one counted as moved *)
+Definition take_moved_neq (procs : list (list key * N)) (dels : list (list key))
            (acc : fronts * fronts) (pp : list key * pinfo) : fronts * fronts :=
   let '(fr, moved) := acc in
   match obj_path procs (pi_obj (snd pp)) with
@@ -79,6 +96,15 @@ Definition restore_moved (procs' : list (list key * N)) (fr moved : fronts) : fr
 Definition front_apply (b : book) (fr : fronts) (rp : reports) : fronts :=
   let nonsteps := filter (fun pp => negb (pi_step (snd pp))) (r_process rp) in
   let '(fr1, moved) := fold_left (take_moved (b_procs b) (r_deletions rp)) (r_process rp) (fr, []) in
+  let fr2 := drop_deleted (b_procs b) (r_deletions rp) fr1 in
+  let procs2 := fold_left (fun ps d => pdrop ps d) (r_deletions rp) (b_procs b) in
+  let '(fr3, procs3) := fold_left register_front nonsteps (fr2, procs2) in
+  restore_moved procs3 fr3 moved.
+
+(* front_apply with take_moved_neq: the code between repairs e8c83f9 and d76c21b *)
+Definition front_apply_neq (b : book) (fr : fronts) (rp : reports) : fronts :=
+  let nonsteps := filter (fun pp => negb (pi_step (snd pp))) (r_process rp) in
+  let '(fr1, moved) := fold_left (take_moved_neq (b_procs b) (r_deletions rp)) (r_process rp) (fr, []) in
   let fr2 := drop_deleted (b_procs b) (r_deletions rp) fr1 in
   let procs2 := fold_left (fun ps d => pdrop ps d) (r_deletions rp) (b_procs b) in
   let '(fr3, procs3) := fold_left register_front nonsteps (fr2, procs2) in
